@@ -74,6 +74,7 @@ class Profile:
         long_block_pct=1,
         constexpr_pct=0,
         spin_cycle_pct=0,
+        split_init=0,
     ):
         self.__dict__.update(locals())
         del self.__dict__["self"]
@@ -1047,6 +1048,15 @@ class _ModGen:
             init = None
             if draw(st.integers(0, 99)) < 60:
                 init = [bytes(draw(st.lists(st.integers(0, 255), min_size=size, max_size=size))).hex()]
+                if prof.split_init and draw(st.integers(0, 99)) < prof.split_init:
+                    # the initial value in several chunks, possibly with a zero-length one (a C union initialiser whose
+                    # first member fills the union is printed as '44332211', '')
+                    cuts = sorted(set(draw(st.lists(st.integers(0, size), min_size=1, max_size=3))))
+                    raw, parts, last = bytes.fromhex(init[0]), [], 0
+                    for c in cuts + [size]:
+                        parts.append(raw[last:c].hex())
+                        last = c
+                    init = parts
             name = "g%d" % i
             self.globals.append({"name": name, "size": size, "align": align, "init": init})
             self.prov[name] = ("obj", name, 0, size, True)
